@@ -108,7 +108,7 @@ func (a *compactAnalysis) rangeBounds(r *Report, p *Program) {
 			continue
 		}
 		for _, ev := range s.Events {
-			if ev.Aux != "NewMerged" {
+			if ev.Op != "ev" || ev.Aux != "NewMerged" {
 				continue
 			}
 			for _, m := range listMembers(ev.Args[0]) {
@@ -141,7 +141,7 @@ func (a *compactAnalysis) modifiedBetween(s simSample, rec, nextSite, add *Term)
 func lastIndexOf(evs []*Term, names ...string) int {
 	for i := len(evs) - 1; i >= 0; i-- {
 		for _, n := range names {
-			if evs[i].Aux == n {
+			if evs[i].Op == "ev" && evs[i].Aux == n {
 				return i
 			}
 		}
@@ -151,7 +151,7 @@ func lastIndexOf(evs []*Term, names ...string) int {
 
 func hasEvent(evs []*Term, name string) *Term {
 	for _, e := range evs {
-		if e.Aux == name {
+		if e.Op == "ev" && e.Aux == name {
 			return e
 		}
 	}
@@ -180,7 +180,7 @@ func checkCompactionTables(p *Program, r *Report, wantExpiry, wantTomb bool) {
 		curMark := termByKey(s.Loop)
 		i := -1
 		for j, e := range s.Events {
-			if (e.Aux == "(*Iterator).NextRef" || e.Aux == "(*Iterator).NextLog") && curMark != nil && e.Args[1].contains(curMark) {
+			if e.Op == "ev" && (e.Aux == "(*Iterator).NextRef" || e.Aux == "(*Iterator).NextLog") && curMark != nil && e.Args[1].contains(curMark) {
 				i = j
 				break
 			}
